@@ -502,6 +502,11 @@ def flatten(j):
                 params = [g['name'] for g in cf.get('generics', []) if g['kind'] != 'lifetime' and not g['name'].startswith('<')]
                 fnargs = t['func'].get('fnargs', [])
                 tymap = dict((p, a) for p, a in zip(params, fnargs) if p != a) if len(params) == len(fnargs) and not t.get('closure_call') else {}
+                if not tymap and not t.get('closure_call') and params and len(fnargs) == len(params) + 1 and (t.get('trait') or '').startswith(str(j.get('crate', 'desync')) + '::'):
+                    # a method of `impl<T> Ext<T> for Mutex<T>` called through the trait: the call's arguments are [Self, T..], the impl's are [T..]
+                    self_ty_ = str(fnargs[0])
+                    if all(str(a) in self_ty_ for a in fnargs[1:]):
+                        tymap = dict((p, a) for p, a in zip(params, fnargs[1:]) if p != a)
                 _inline_into(f, bi, cf, tymap)
                 changed = True
                 break
